@@ -25,3 +25,15 @@ pub use pretty::PrettyOutputToken;
 pub(crate) use serializer::gen_outputs;
 pub use serializer::{Output, OutputToken};
 pub(crate) use xml_serializer::XmlSerializer;
+
+#[cfg(feature = "xot_verif")]
+pub(crate) fn verif_serialize_text_html(content: &str) -> String {
+    html5_serializer::serialize_text_html(std::borrow::Cow::Borrowed(content), &NoopNormalizer)
+        .into_owned()
+}
+
+#[cfg(feature = "xot_verif")]
+pub(crate) fn verif_serialize_attribute_html(content: &str) -> String {
+    html5_serializer::serialize_attribute_html(std::borrow::Cow::Borrowed(content), &NoopNormalizer)
+        .into_owned()
+}
